@@ -137,8 +137,13 @@ def negative_queries(ctx, out):
     """ordinary (valid) maps, one tempo included: no public query for a negative tick may return a time"""
     rng = ctx.sub("negq")
     for _ in range(ctx.n(150, 15_000)):
-        res, tempo = C01.rand_map(rng, rng.choice([1, 1, 2, 5]))
+        res, tempo = C01.rand_map(rng, rng.choice([1, 1, 2, 5, 40, 70]))
         be = C01.build_bpm_events(res, tempo)
+        if len(tempo) > 5:
+            # a long map that has already answered lookups deep into it (and at its end) is as strict about what precedes it
+            for tk in (tempo[-1][0] + 7, tempo[len(tempo) // 2][0], tempo[-1][0]):
+                be.timestamp_at_tick(tk)
+                be.timestamp_at_tick_no_optimize_return(tk)
         for tick in (-1, -rng.randint(2, 10**6), -rng.choice(gen.LADDER[8:])):
             for name in ("timestamp_at_tick", "timestamp_at_tick_no_optimize_return"):
                 rp = {"op": "negq", "res": res, "tempo": tempo, "tick": tick, "api": name}
